@@ -48,10 +48,12 @@ pub const F_OTHER: &str = "src/deep/other.graphql";
 pub const F_SPACED: &str = "src/deep/spaced.graphql";
 
 use Layer::*;
-pub const FAULTS: [Fault; 26] = [
+pub const FAULTS: [Fault; 27] = [
     // simplest first
     Fault { id: "op.unknown-field.simple", file: F_SIMPLE, old: "{ id }", new: "{ idd }", layer: OpCheck },
     Fault { id: "op.unknown-field.other", file: F_OTHER, old: "{ id }", new: "{ idd }", layer: OpCheck },
+    // a bare field that needs an argument AND a selection set: two different diagnostics at one position
+    Fault { id: "op.two-diagnostics-at-one-position.other", file: F_OTHER, old: "query R {", new: "query R { user", layer: OpCheck },
     Fault { id: "op.unknown-field.spaced", file: F_SPACED, old: "    id\n", new: "    idd\n", layer: OpCheck },
     Fault { id: "op.scalar-selection.spaced", file: F_SPACED, old: "    name\n", new: "    name { x }\n", layer: OpCheck },
     Fault { id: "op.unknown-variable.main", file: F_MAIN, old: "friends(first: $first)", new: "friends(first: $firs)", layer: OpCheck },
